@@ -137,6 +137,29 @@ func (z *linearizer) lin(e ast.Expr) (Lin, bool) {
 				return z.lin(x.Args[0])
 			}
 		}
+		if sel, ok := ast.Unparen(x.Fun).(*ast.SelectorExpr); ok && sel.Sel.Name == "Sizeof" && len(x.Args) == 1 {
+			if pk, ok := sel.X.(*ast.Ident); ok {
+				if pn, ok := z.info.Uses[pk].(*types.PkgName); ok && pn.Imported().Path() == "unsafe" {
+					// unsafe.Sizeof of a value of a type parameter: at least one byte when every type
+					// of the type set is a number
+					atom := z.cc.canon(e)
+					numeric := false
+					if tp, ok := types.Unalias(z.info.TypeOf(x.Args[0])).(*types.TypeParam); ok {
+						numeric = true
+						for _, term := range typeSetTerms(tp) {
+							if b, ok := term.Underlying().(*types.Basic); !ok || b.Info()&types.IsNumeric == 0 {
+								numeric = false
+							}
+						}
+					}
+					if numeric {
+						z.at.addSide(atom, linConst(1).add(linAtom(atom), -1)) // 1 - atom ≤ 0
+					}
+					z.at.addSide(atom, linAtom(atom).scale(-1))
+					return linAtom(atom), true
+				}
+			}
+		}
 		if id, ok := ast.Unparen(x.Fun).(*ast.Ident); ok {
 			if _, isB := z.info.Uses[id].(*types.Builtin); isB {
 				switch id.Name {
